@@ -747,6 +747,13 @@ class CallMixin:
                 return True
         if len(body) == 1 and isinstance(body[0], ast.Pass):
             return True
+        # properties run the real code like any attribute read; call-free straight-line getters likewise
+        if any(isinstance(d, ast.Name) and d.id == 'property' for d in finfo.node.decorator_list):
+            return True
+        if body and all(isinstance(x, (ast.Assign, ast.Return)) for x in body) and not any(
+                isinstance(n, (ast.Call, ast.Yield, ast.Await)) for x in body for n in ast.walk(x)) and all(
+                isinstance(t, ast.Name) for x in body if isinstance(x, ast.Assign) for t in x.targets):
+            return True
         return False
 
     def inline_call(self, finfo, self_val, args, kwargs, st, line, closure_env=None):
